@@ -15,8 +15,12 @@ def alloc_prop(pid, rule, quick, thorough, extra_assume=()):
         "engine": "alloc",
         "tests": [{"name": "Test" + pid,
                    "quick": {"checks": quick, "shards": 3},
-                   "thorough": {"checks": thorough, "shards": 16}}],
-        "rule": rule,
+                   "thorough": {"checks": thorough, "shards": 16}},
+                  # IPv4 ranges of 2^31..2^32 addresses (each allocator holds 256-512 MB of bitmap)
+                  {"name": "Test" + pid + "Big",
+                   "quick": {"checks": 24, "shards": 1},
+                   "thorough": {"checks": 150, "shards": 4}}],
+        "rule": rule + " Test" + pid + "Big: IPv4 ranges of 2^31..2^32 addresses (incl. 0.0.0.0-255.255.255.255, whose size does not fit in 32 bits) with histories of 2..24 calls against the same set model; such a pool is never full, so Allocate must always succeed; no drain; non-trivial: >= 2 hint-less allocations and a honoured hint.",
         "assumptions": ALLOC_ASSUME + list(extra_assume),
     }
 
@@ -52,13 +56,13 @@ PROPS = {
     "C08": {
         "engine": "pd6",
         "tests": [{"name": "TestC08", "quick": {"checks": 8000, "shards": 3}, "thorough": {"checks": 150000, "shards": 16}}],
-        "rule": "rapid draws an IPv6 pool (/32../120, 1..64 [thorough ..1024] blocks), 1..4 clients (DUID-LL/LLT/EN/UUID/opaque, distinct raw ids) and a history of 1..12 [thorough ..30] messages of every supported type, direct or relayed (depth 1..2), each with 0..3 IA_PD carrying 0..3 IAPrefix hints (none, wire length 0, length-only, free block, held by self, held by another client, any block, out of pool, longer/shorter than the page, length > 128), optionally followed by a concurrent phase (2..6 goroutines). Requests are built as wire bytes and parsed by the library; every reply is checked by a validity predicate (IA_PD correspondence, in pool, aligned, page <= length <= 128, 0 < preferred <= valid <= 3600 s, NoPrefixAvail when empty) and an owner table block -> client. Non-trivial: >= 2 clients hold a prefix, or NoPrefixAvail was seen, or a hint named a block held by another client, or a concurrent phase ran. Distinct: FNV-64 of the case JSON.",
+        "rule": "rapid draws an IPv6 pool (/32../120, 1..64 [thorough ..1024] blocks), 1..4 clients (DUID-LL/LLT/EN/UUID/opaque, distinct raw ids) and a history of 1..12 [thorough ..30] messages of every supported type, direct or relayed (depth 1..2), each with 0..3 IA_PD carrying 0..3 IAPrefix hints (none, wire length 0, length-only, free block, held by self, held by another client, any block, out of pool, longer/shorter than the page, length > 128), optionally followed by a concurrent phase (2..6 goroutines); histories also contain 'age' steps (1 s .. 25 h pass without traffic: the plugin's records are aged through the verif hook prefix.VerifAge) and IA_PDs with 65..70 renewal-shaped hints followed by their retransmission. Requests are built as wire bytes and parsed by the library; every reply is checked by a validity predicate (IA_PD correspondence, in pool, aligned, page <= length <= 128, 0 < preferred <= valid <= 3600 s, NoPrefixAvail when empty) and an owner table block -> client. Non-trivial: >= 2 clients hold a prefix, or NoPrefixAvail was seen, or a hint named a block held by another client, or a concurrent phase ran. Distinct: FNV-64 of the case JSON.",
         "assumptions": ["pools are IPv6 CIDRs as the plugin documents", "which free block a new delegation gets is not asserted", "the response stub is built as server.HandleMsg6 builds it"],
     },
     "C09": {
         "engine": "pd6",
         "tests": [{"name": "TestC09", "quick": {"checks": 8000, "shards": 3}, "thorough": {"checks": 150000, "shards": 16}}],
-        "rule": "same domain as C08 with later messages biased to renewal shapes (IA_PD without IAPrefix, IAPrefix of wire length 0 and address ::, exact hints on one/several held prefixes, two or three new prefixes asked in one IA_PD, byte-identical retransmission). Oracle: held[c] = every prefix an earlier reply told client c it holds; an IA_PD with an exact hint on P in held[c] must be answered with P; a hint-less IA_PD with every P in held[c]; a retransmitted message whose IA_PDs are all renew-shaped is answered with nothing outside held[c]; valid lifetime never below what remained (2 s tolerance). Non-trivial: a renewal-shaped IA_PD was sent by a client that holds a prefix. Distinct: FNV-64 of the case JSON.",
+        "rule": "same domain as C08 (incl. age steps and IA_PDs with more than 64 hints) with later messages biased to renewal shapes (IA_PD without IAPrefix, IAPrefix of wire length 0 and address ::, exact hints on one/several held prefixes, two or three new prefixes asked in one IA_PD, byte-identical retransmission). Oracle: held[c] = every prefix an earlier reply told client c it holds; an IA_PD with an exact hint on P in held[c] must be answered with P; a hint-less IA_PD with every P in held[c]; a retransmitted message whose IA_PDs are all renew-shaped is answered with nothing outside held[c]; valid lifetime never below what remained (2 s tolerance; age steps count). Non-trivial: a renewal-shaped IA_PD was sent by a client that holds a prefix. Distinct: FNV-64 of the case JSON.",
         "assumptions": ["'asks for exactly P' means same address bytes and same length as the client was told", "a length-only hint (::/L, L > 0) is not a hint-less request; nothing beyond C08 validity is asserted for it",
                         "the retransmission clause is applied only to messages all of whose IA_PDs are hint-less or exact hints on held prefixes"],
     },
@@ -96,7 +100,7 @@ PROPS = {
     "C19": {
         "engine": "opts",
         "tests": [{"name": "TestC19", "quick": {"checks": 12000, "shards": 4}, "thorough": {"checks": 60000, "shards": 32}}],
-        "rule": "rapid draws one of the 21 (built-in plugin, protocol) pairs and an argument vector of arity 0..4 whose tokens come, per position, from pools of valid, boundary and invalid values of the expected kind (IPv4/IPv6/v4-mapped/garbage addresses, CIDRs of both families, dest,gw pairs in every family mix, durations incl. negative/huge/garbage, integers incl. 65535/65536/negative/huge, URLs of every scheme incl. invalid escapes and 70 kB parameters, file names: valid/missing/directory/not-a-database, DUID types, MACs of 5..20 bytes, domain names with labels of 63/64/191/192/255/300 bytes, empty labels, trailing dots, non-ASCII), sometimes from another kind's pool. Setup runs under recover; if it returns a handler, a battery of 13 DHCPv4 or 54 DHCPv6 requests is run: no panic in handler or serialisation, the reply parses, its options equal the reply object's options one by one, and re-serialising gives identical bytes. Non-trivial: every case that was not skipped for a resource bound (rejected at setup, or accepted and run against the battery); distinct: FNV-64 of the case JSON.",
+        "rule": "rapid draws one of the 21 (built-in plugin, protocol) pairs and an argument vector of arity 0..4 whose tokens come, per position, from pools of valid, boundary and invalid values of the expected kind (IPv4/IPv6/v4-mapped/garbage addresses, CIDRs of both families, dest,gw pairs in every family mix, durations incl. negative/huge/garbage, integers incl. 65535/65536/negative/huge, URLs of every scheme incl. invalid escapes and 70 kB parameters, file names: valid/missing/directory/not-a-database, DUID types, MACs of 5..20 bytes, domain names with labels of 63/64/191/192/255/300 bytes, empty labels, trailing dots, non-ASCII), sometimes from another kind's pool. Setup runs under recover; if it returns a handler, a battery of 13 DHCPv4 or 54 DHCPv6 requests is run: no panic in handler or serialisation, the reply parses, its options equal the reply object's options one by one, and re-serialising gives identical bytes. Non-trivial: every case that was not skipped for a resource bound (rejected at setup, or accepted and run against the battery); distinct: FNV-64 of the case JSON. The range 0.0.0.0-255.255.255.255 (2^32 addresses) is generated on purpose and let through the resource bound a few times per process.",
         "assumptions": ["resource bounds of the sandbox, not of the property: prefix pools and ranges <= 2^20 blocks, sleep <= 5 ms, <= 5 autorefresh watchers and a bounded number of sqlite handles per process (skipped cases are counted)",
                         "argument tokens never contain blanks: configuration arguments are whitespace-separated fields"],
     },
@@ -107,7 +111,7 @@ PROPS = {
             {"name": "TestC10Refresh", "quick": {"checks": 16, "shards": 1}, "thorough": {"checks": 30, "shards": 2}, "env": {"VERIF_MAX_WATCHERS": 35}},
             {"name": "TestC10Dual", "quick": {"checks": 2000, "shards": 1}, "thorough": {"checks": 60000, "shards": 2}},
         ],
-        "rule": "three generators. Static: a lease file from a grammar (entries with MACs of 6/8/20 bytes in colon/upper/hyphen/dotted spellings from a small pool so duplicates occur, IPv4 dotted or v4-mapped / IPv6 compressed, expanded or upper-case, separators of blanks and tabs, trailing blanks, comments, empty lines, with or without final newline, optionally exactly one malformed line: one field, three fields, bad MAC, bad address, wrong family), set up through Plugin.Setup4/Setup6; the harness's own parser of the rendered text says 'rejected' or gives the mapping; every listed MAC is probed (DHCPv4 chaddr; DHCPv6 via DUID-LL/LLT, via the relay's client link-layer address option, via an EUI-64 peer address; with and without IA_NA) and near-miss / truncated / fixed unlisted MACs must be passed untouched. Refresh: an autorefresh instance and 2..6 rewrites (in place by one pwrite of equal length, or one O_APPEND write), good or malformed: a good rewrite must become visible (10 s + one more event + 20 s), every lookup during the switch serves the old or the new value with a single switch point, a malformed rewrite leaves the previous mapping (polled 100 ms). Dual: both protocols configured in either order, each handler must serve its own file. Non-trivial: static file with >= 2 entries and a duplicate MAC or non-canonical spelling, or a rejected file with >= 3 lines; refresh sequence with a malformed rewrite after a good one; dual case with both files non-empty. Distinct: FNV-64 of the case JSON.",
+        "rule": "three generators. Static: a lease file from a grammar (entries with MACs of 6/8/20 bytes in colon/upper/hyphen/dotted spellings from a small pool so duplicates occur, IPv4 dotted or v4-mapped / IPv6 compressed, expanded or upper-case, separators of blanks and tabs, trailing blanks, comments, empty lines, with or without final newline, optionally exactly one malformed line: one field, three fields, bad MAC, bad address, wrong family; one file in ten has one line lengthened to 4 KiB..140 KB, on both sides of 64 KiB), set up through Plugin.Setup4/Setup6; the harness's own parser of the rendered text says 'rejected' or gives the mapping; every listed MAC is probed (DHCPv4 chaddr; DHCPv6 via DUID-LL/LLT, via the relay's client link-layer address option, via an EUI-64 peer address; with and without IA_NA) and near-miss / truncated / fixed unlisted MACs must be passed untouched. Refresh: an autorefresh instance and 2..6 rewrites (in place by one pwrite of equal length, or one O_APPEND write), good or malformed: a good rewrite must become visible within 15 s without any further file event, every lookup during the switch serves the old or the new value with a single switch point, a malformed rewrite leaves the previous mapping (polled 100 ms); one good rewrite in six is preceded, with nothing in between, by a rewrite to a large file (2000..20000 generated entries): the stages old -> large -> last never go backwards and after the last content is in force an older one must not come back (polled 150 ms). Dual: both protocols configured in either order, each handler must serve its own file. Non-trivial: static file with >= 2 entries and a duplicate MAC or non-canonical spelling, or a rejected file with >= 3 lines; refresh sequence with a malformed rewrite after a good one; dual case with both files non-empty. Distinct: FNV-64 of the case JSON.",
         "assumptions": ["no whitespace-only lines, indented comments or CR line endings; files are never replaced by rename (the property does not define these)",
                         "net.ParseMAC / net.ParseIP define the accepted spellings, as the property says", "inotify instances are never released by the plugin: at most 35 autorefresh instances per process; a failing watcher creation is counted as skipped"],
     },
@@ -126,9 +130,10 @@ PROPS = {
     },
     "C01": {
         "engine": "srv",
-        "tests": [{"name": "TestC01", "quick": {"checks": 3000, "shards": 4}, "thorough": {"checks": 25000, "shards": 16}}],
+        "tests": [{"name": "TestC01", "quick": {"checks": 3000, "shards": 4}, "thorough": {"checks": 25000, "shards": 16}},
+                  {"name": "TestC01Burst", "quick": {"checks": 500, "shards": 4}, "thorough": {"checks": 6000, "shards": 16}, "shrinktime": "10s"}],
         "fuzz": [{"name": "FuzzHandle4", "seconds": 150}, {"name": "FuzzHandle6", "seconds": 150}],
-        "rule": "rapid draws a protocol, a chain of validly configured built-in plugins (any subset in example-configuration order, or any permutation prefix; several argument variants; stateful range/prefix/file included; fresh instances per case), a bound or unbound listener, and a history of 1..12 [thorough ..24] datagrams from small pools of clients: structured DHCPv4 packets (any opcode, hlen 0..255, message type any/absent/duplicated/bad length, options 50/54/55/61/82/12/116/generic, pad, missing END, bad cookie, shuffled options) or DHCPv6 messages (any type, 0..3 IA_PD with hints of wire length 0 / length-only / pool blocks / out of pool / length > 128, IA_NA, ORO, server id own/other, rapid commit, relay depth 0..4 with interface-id/remote-id/client link-layer address, missing relay message, outer Relay-Reply), 30% byte-mutated (truncate, bit flip, overwrite, splice with the previous datagram, append, length bytes) and 10% retransmitted. Each datagram is fed through the capture listener under recover and a watchdog; oracle: no panic, returns within 20 s (a goroutine parked on a lock or channel is a wedge), at most one reply, every reply parses, and a well-formed canary request after the history still reaches the plugin chain. Non-trivial: at least one datagram of the history reached the plugin chain. Distinct: FNV-64 of the case JSON. Thorough adds coverage-guided native fuzzing of whole histories (FuzzHandle4/6).",
+        "rule": "rapid draws a protocol, a chain of validly configured built-in plugins (any subset in example-configuration order, or any permutation prefix; several argument variants; stateful range/prefix/file included; fresh instances per case), a bound or unbound listener, and a history of 1..12 [thorough ..24] datagrams from small pools of clients: structured DHCPv4 packets (any opcode, hlen 0..255, message type any/absent/duplicated/bad length, options 50/54/55/61/82/12/116/generic, pad, missing END, bad cookie, shuffled options) or DHCPv6 messages (any type, 0..3 IA_PD with hints of wire length 0 / length-only / pool blocks / out of pool / length > 128, IA_NA, ORO, server id own/other, rapid commit, relay depth 0..4 with interface-id/remote-id/client link-layer address, missing relay message, outer Relay-Reply), 30% byte-mutated (truncate, bit flip, overwrite, splice with the previous datagram, append, length bytes) and 10% retransmitted. Each datagram is fed through the capture listener under recover and a watchdog; oracle: no panic, returns within 20 s (a goroutine parked on a lock or channel is a wedge), at most one reply, every reply parses, and a well-formed canary request after the history still reaches the plugin chain. Non-trivial: at least one datagram of the history reached the plugin chain. Distinct: FNV-64 of the case JSON. Thorough adds coverage-guided native fuzzing of whole histories (FuzzHandle4/6). TestC01Burst: the same histories under chains that usually contain a lease plugin, followed by 2..6 copies of all their datagrams handled at once, one goroutine each as Serve does (copies come from other clients where the datagram says who the client is); same oracle, and the Go runtime's fatal checks (concurrent map access, unlock of unlocked mutex) count as a crash; not a race build.",
         "assumptions": ["an unbound listener always receives interface information (listen4/listen6 enable it on unbound sockets), so (unbound, no control message) is never generated",
                         "replies are observed at the capture hook: the WriteTo call of the listener and the serialised Ethernet frame of sendEthernet; the sockets themselves are not exercised",
                         "the layer-2 path needs an interface with a 6-byte hardware address; it is looked up at run time"],
@@ -146,9 +151,10 @@ PROPS = {
     "C12": {
         "engine": "srv",
         "tests": [{"name": "TestC12", "quick": {"checks": 30000, "shards": 3}, "thorough": {"checks": 300000, "shards": 12}, "count_free": True},
-                  {"name": "TestC12Hist", "quick": {"checks": 2500, "shards": 3}, "thorough": {"checks": 25000, "shards": 8}}],
+                  {"name": "TestC12Hist", "quick": {"checks": 2500, "shards": 3}, "thorough": {"checks": 25000, "shards": 8}},
+                  {"name": "TestC12Serve", "quick": {"checks": 150, "shards": 1, "timeout": 600}, "thorough": {"checks": 3000, "shards": 4, "timeout": 3000}, "shrinktime": "5s"}],
         "fuzz": [{"name": "FuzzReply6", "seconds": 60}],
-        "rule": "every run enumerates message type 0..255 x client-id present/absent x rapid-commit present/absent x relay depth 0..2, then rapid draws structured DHCPv6 datagrams (see C01; 17% byte-mutated) x source address (link-local, global, loopback, ULA) x source port x bound/unbound listener x receiving interface index, with an empty chain. Oracle: output exists iff the innermost message can be extracted, has a supported type and a client id and the outermost layer (if any) is a Relay-Forward; the answer is ADVERTISE for SOLICIT, REPLY carrying Rapid Commit for SOLICIT with it, REPLY otherwise, same transaction id, byte-equal client id; relayed: exactly n Relay-Reply layers (read with the harness's own walker) mirroring link-address, peer-address and Interface-ID per layer; destination = source address and port; link-local source => control message pinned to the bound, else the receiving interface. TestC12Hist applies the same oracle to every datagram of C01-style histories under chains of built-in DHCPv6 plugins (small prefix pools, static leases). Non-trivial: a reply was produced or the datagram was relayed (TestC12); at least one datagram of the history answered (TestC12Hist). Distinct: FNV-64 of the case JSON.",
+        "rule": "every run enumerates message type 0..255 x client-id present/absent x rapid-commit present/absent x relay depth 0..2, then rapid draws structured DHCPv6 datagrams (see C01; 17% byte-mutated) x source address (link-local, global, loopback, ULA) x source port x bound/unbound listener x receiving interface index, with an empty chain. Oracle: output exists iff the innermost message can be extracted, has a supported type and a client id and the outermost layer (if any) is a Relay-Forward; the answer is ADVERTISE for SOLICIT, REPLY carrying Rapid Commit for SOLICIT with it, REPLY otherwise, same transaction id, byte-equal client id; relayed: exactly n Relay-Reply layers (read with the harness's own walker) mirroring link-address, peer-address and Interface-ID per layer; destination = source address and port; link-local source => control message pinned to the bound, else the receiving interface. TestC12Hist applies the same oracle to every datagram of C01-style histories under chains of built-in DHCPv6 plugins (small prefix pools, static leases). Non-trivial: a reply was produced or the datagram was relayed (TestC12); at least one datagram of the history answered (TestC12Hist). TestC12Serve: the real Serve loop on a [::1] socket, 2..8 client sockets each sending 2..12 SOLICITs back to back; every recorded reply must be addressed to the socket its own request (same transaction id) came from; non-trivial: two or more replies. Distinct: FNV-64 of the case JSON.",
         "assumptions": ["an unbound listener always receives interface information (listen4/listen6 enable it on unbound sockets), so (unbound, no control message) is never generated",
                         "replies are observed at the capture hook: the WriteTo call of the listener and the serialised Ethernet frame of sendEthernet; the sockets themselves are not exercised",
                         "the layer-2 path needs an interface with a 6-byte hardware address; it is looked up at run time"] + ["inner relay layers are generated as Relay-Forward; only the outermost may be a Relay-Reply", "absence of pinning for global sources is not asserted"],
@@ -167,7 +173,7 @@ PROPS = {
         "engine": "srv",
         "tests": [{"name": "TestC15", "quick": {"checks": 20000, "shards": 2}, "thorough": {"checks": 500000, "shards": 10}, "count_free": True},
                   {"name": "TestC15Seq", "quick": {"checks": 8000, "shards": 2}, "thorough": {"checks": 200000, "shards": 8}}],
-        "rule": "every run enumerates the whole table giaddr x ciaddr in {0, 192.0.2.7, 10.10.10.200, 169.254.7.9, 255.255.255.255} x broadcast flag x DISCOVER/REQUEST x synthetic plugin action {offer an address, leave yiaddr unset, turn the reply into a NAK} x listener {bound to the interface with a 6-byte hardware address, unbound with the request arriving on it, unbound with a non-existent receiving index} (900 rows), then rapid draws the same dimensions with random addresses, yiaddr and chaddr; TestC15Seq draws sequences of 2..5 rows (biased to the link-level row) arriving on / bound to different interfaces with a 6-byte hardware address and handled by the same process, so state left by one datagram cannot leak into the next. Oracle: the statement's cascade written independently (giaddr:67, NAK broadcast, ciaddr:68, flag broadcast, else one layer-2 frame with Ethernet dst = chaddr, IPv4 dst = yiaddr, UDP 67->68, DHCP payload = the reply, on the right interface); broadcast/link-local/L2 pinned to the bound or receiving interface, routable destinations not pinned. Every row is non-trivial; distinct: FNV-64 of the case JSON.",
+        "rule": "every run enumerates the whole table giaddr x ciaddr in {0, 192.0.2.7, 10.10.10.200, 169.254.7.9, 255.255.255.255} x broadcast flag x DISCOVER/REQUEST x synthetic plugin action {offer an address, leave yiaddr unset, turn the reply into a NAK} x listener {bound to the interface with a 6-byte hardware address, unbound with the request arriving on it, unbound with a non-existent receiving index} (900 rows), then rapid draws the same dimensions with random addresses, yiaddr and chaddr (one in four with a hardware address of 0, 1, 5, 7, 8, 15 or 16 bytes: on the link-level row nothing needs to be sent then, but a frame to any other MAC is a violation); TestC15Seq draws sequences of 2..5 rows (biased to the link-level row) arriving on / bound to different interfaces with a 6-byte hardware address and handled by the same process, so state left by one datagram cannot leak into the next. Oracle: the statement's cascade written independently (giaddr:67, NAK broadcast, ciaddr:68, flag broadcast, else one layer-2 frame with Ethernet dst = chaddr, IPv4 dst = yiaddr, UDP 67->68, DHCP payload = the reply, on the right interface); broadcast/link-local/L2 pinned to the bound or receiving interface, routable destinations not pinned. Every row is non-trivial; distinct: FNV-64 of the case JSON.",
         "assumptions": ["an unbound listener always receives interface information (listen4/listen6 enable it on unbound sockets), so (unbound, no control message) is never generated",
                         "replies are observed at the capture hook: the WriteTo call of the listener and the serialised Ethernet frame of sendEthernet; the sockets themselves are not exercised",
                         "the layer-2 path needs an interface with a 6-byte hardware address; it is looked up at run time"] + ["layer-2 rows use hlen 6; for other lengths the Ethernet serialiser refuses and nothing is sent, which is recorded but not asserted"],
@@ -176,7 +182,7 @@ PROPS = {
         "engine": "srv",
         "tests": [{"name": "TestC16", "race": True, "quick": {"checks": 30, "shards": 3, "timeout": 1500}, "thorough": {"checks": 600, "shards": 14, "timeout": 3000}, "env": {"VERIF_MAX_WATCHERS": 6}, "shrinktime": "5s"},
                   {"name": "TestC16Serve", "race": True, "quick": {"checks": 100, "shards": 1, "timeout": 1500}, "thorough": {"checks": 3000, "shards": 4, "timeout": 3000}, "shrinktime": "5s"}],
-        "rule": "rapid draws a scenario: DHCPv4 chain (server_id, file, range, dns, router, netmask, lease_time), DHCPv6 chain (server_id, file, prefix, dns) or both at once; 1..3 static and 2..8 dynamic clients, a range/pool up to two smaller than the dynamic client set, 8..32 [thorough ..64] goroutines each sending 3..12 datagrams (same-client storms), optionally the file plugin with autorefresh while a writer goroutine rewrites the lease files in place; every datagram goes through Capture.Feed (buffer from the pool, parse, recycle, chain) on a -race build. TestC16Serve runs the real Serve loops (ReadFrom into a pooled buffer, reslice, one goroutine per datagram) on loopback UDP sockets: 2..8 client sockets send bursts of 2..12 datagrams of varying length, outputs are captured at WriteTo; every recorded reply must belong to exactly one request (xid <-> chaddr / client id) and a datagram still unanswered after the burst must be answered when sent again alone. Oracles: (1) the Go race detector (any report is a violation); (2) cross-talk: the reply returned for request xid X must carry X and X's chaddr/client id; (3) invariants every serial order satisfies: one address per dynamic client, one client per address, in range, refusal implies the range is full at the end, static clients get the old or the new mapping, one prefix per client for hint-less requests, no prefix delegated to two clients. Non-trivial: at least two datagrams were in flight at once (measured). Distinct: FNV-64 of the case JSON.",
+        "rule": "rapid draws a scenario: DHCPv4 chain (server_id, file, range, dns, router, netmask, lease_time), DHCPv6 chain (server_id, file, prefix, dns) or both at once; 1..3 static and 2..8 dynamic clients, a range/pool up to two smaller than the dynamic client set, 8..32 [thorough ..64] goroutines each sending 3..12 datagrams (same-client storms), optionally the file plugin with autorefresh while a writer goroutine rewrites the lease files in place; every datagram goes through Capture.Feed (buffer from the pool, parse, recycle, chain) on a -race build. Refresh scenarios end with two rewrites of the DHCPv4 lease file back to back (12000 entries, then the final content, which adds a client): the final content must come into force within 15 s and stay (150 ms). TestC16Serve runs the real Serve loops (ReadFrom into a pooled buffer, reslice, one goroutine per datagram) on loopback UDP sockets: 2..8 client sockets send bursts of 2..12 datagrams of varying length, outputs are captured at WriteTo; every recorded reply must belong to exactly one request (xid <-> chaddr / client id; DHCPv6: addressed to the socket that request came from) and a datagram still unanswered after the burst must be answered when sent again alone. Oracles: (1) the Go race detector (any report is a violation); (2) cross-talk: the reply returned for request xid X must carry X and X's chaddr/client id; (3) invariants every serial order satisfies: one address per dynamic client, one client per address, in range, refusal implies the range is full at the end, static clients get the old or the new mapping, one prefix per client for hint-less requests, no prefix delegated to two clients. Non-trivial: at least two datagrams were in flight at once (measured). Distinct: FNV-64 of the case JSON.",
         "assumptions": ["interleavings are sampled by the Go scheduler (GOMAXPROCS = cores, yields injected in front of the chain); the race detector flags unsynchronised access pairs even when the bad interleaving did not occur",
                         "requests are relayed (giaddr set) so replies take the UDP path", "at most 6 autorefresh watchers per process (up to 14 processes; the per-user inotify limit is 128) (inotify instances are never released by the plugin)"],
     },
